@@ -11,7 +11,7 @@ for every run) no state ever has to be copied.
 """
 import z3
 
-FEAS_TIMEOUT_MS = 1500
+FEAS_TIMEOUT_MS = 5000
 
 
 class PathEnd(Exception):
@@ -50,7 +50,7 @@ def has_quantifier(e):
   k = e.get_id()
   r = _QCACHE.get(k)
   if r is not None:
-    return r
+    return r[1]
   todo = [e]
   seen = set()
   r = False
@@ -64,7 +64,9 @@ def has_quantifier(e):
       r = True
       break
     todo.extend(x.children())
-  _QCACHE[k] = r
+  # (the entry keeps the term alive: z3 recycles the ids of freed terms, and a recycled id must
+  # not inherit the verdict of the term that had it before)
+  _QCACHE[k] = (e, r)
   return r
 
 
@@ -210,6 +212,11 @@ class Ctx(object):
                     self.unit)
     ob.meta.setdefault('trail', list(self.path_events))
     self.obligations.append(ob)
+    pref = self.explorer.label_prefixes
+    if pref is not None and not any(label.startswith(p) for p in pref):
+      # a clause of another property sharing this unit: it is decided by that property's check;
+      # assuming it here could hide a failure of this property's clauses behind it
+      return
     if assume_after and not z3.is_false(z3.simplify(cond)):
       # (a clause that is literally false on this path is recorded but not assumed, so that the
       # clauses after it are still generated)
@@ -239,6 +246,7 @@ class Explorer(object):
     self.max_paths = max_paths
     self.feas_queries = 0
     self.covers_hit = set()
+    self.label_prefixes = None       # when set: only clauses with these label prefixes are assumed after being checked
 
   def push(self, trace):
     self.work.append(trace)
@@ -263,6 +271,18 @@ class Explorer(object):
         n_completed += 1
       except PathEnd:
         pass
+      except Exception as e:
+        # an exception on a path whose feasibility query had timed out (busy machine) is not the
+        # code's: re-examine the path condition with a generous budget before passing it on
+        if type(e).__name__ not in ('PyRaise', 'EngineError', 'KeyError', 'AttributeError', 'TypeError', 'IndexError'):
+          raise
+        chk = z3.Solver()
+        chk.set('timeout', 60000)
+        for a in ctx.pc:
+          if not has_quantifier(a):
+            chk.add(a)
+        if chk.check() != z3.unsat:
+          raise
       for ob in ctx.obligations:
         obligations.append(ob)
       for (c, hit) in ctx.covers:
